@@ -77,7 +77,11 @@ def run_conversation(rec, case):
             script['ws'] = 'refuse'
         else:
             script['probe'] = probe
-    w = cli.make_world(kind, script=script, policy='fifo',
+    sched_seed = rng.randrange(1 << 30) if (kind == 'T' and
+                                            rng.random() < 0.4) else 0
+    w = cli.make_world(kind, script=script,
+                       policy='random' if sched_seed else 'fifo',
+                       seed=sched_seed, yield_prob=0.3 if sched_seed else 0.0,
                        request_timeout=5)
     desc = 'client=%s transport=%s probe=%s' % (
         'Client' if kind == 'T' else 'AsyncClient', transport, probe)
@@ -147,13 +151,14 @@ def run_conversation(rec, case):
                 steps.append('burst%d' % n)
             elif k < 0.6:
                 n = rng.choice([1, 2, 6, 25])
+                batch = []
                 for _ in range(n):
                     nu += 1
                     i, data, kd = mk_payload(rng, 'U', nu)
                     up.append((i, data, kd))
-                    c.call('send', data)
-                    if rng.random() < 0.3:
-                        w.quiesce()
+                    batch.append(data)
+                rs = c.call_seq('send', batch)   # one application task
+                w.run_until(lambda: rs['done'], 30)
                 steps.append('sends%d' % n)
             elif k < 0.75:
                 # ('null' is left out: it decodes to "no data", which is
@@ -186,6 +191,12 @@ def run_conversation(rec, case):
         got = [e['data'] for e in c.events if e['ev'] == 'message']
         gids = [id_of(d) for d in got]
         wids = [i for i, d in down]
+        if sched_seed and sorted(gids, key=str) == sorted(wids, key=str):
+            # the threaded client starts one task per message: under a
+            # random schedule only exactly-once is required
+            gids = wids
+            got = [dict(down)[i] for i in wids] and got
+            got = sorted(got, key=lambda d: wids.index(id_of(d)))
         if gids != wids:
             kindv = 'lost' if len(gids) < len(wids) else \
                 'duplicated' if len(gids) > len(wids) else 'reordered'
